@@ -313,3 +313,46 @@ func boxLen(b *Box) *Term {
 	boxLenMemo[b] = n
 	return n
 }
+
+var coalesceSlices bool
+
+// coalesce: a union of several slice values (different backing arrays, as produced by a work
+// list that is re-sliced and appended to in a loop) becomes ONE slice over a fresh array whose
+// cells are the guarded choice of the alternatives' cells. The copy gives up aliasing with the
+// original arrays, so it is only switched on (-coalesce) for units whose code does not write
+// through such aliases.
+func (ex *Exec) coalesce(r RefV, et types.Type) RefV {
+	if len(r.Alts) < 2 {
+		return r
+	}
+	for _, a := range r.Alts {
+		if _, ok := a.Tgt.(SliceT); !ok {
+			return r
+		}
+	}
+	r = ex.densify(r, et)
+	capv := 0
+	for _, a := range r.Alts {
+		st := a.Tgt.(SliceT)
+		ub := st.Cap
+		if u, ok := termUpper(st.Len); ok && u < ub {
+			ub = u
+		}
+		if ub > capv {
+			capv = ub
+		}
+	}
+	arr := ex.newArray("coalesced", et, capv)
+	ne := arr.val.(ArrayV).E
+	lenT := BVC(0, 64)
+	for _, a := range r.Alts {
+		st := a.Tgt.(SliceT)
+		srcE := st.Arr.val.(ArrayV).E
+		for j := 0; j < capv && j < st.Cap && st.Off+j < len(srcE); j++ {
+			ne[j] = MergeV(a.C, srcE[st.Off+j], ne[j])
+		}
+		lenT = Ite(a.C, st.Len, lenT)
+	}
+	arr.val = ArrayV{E: ne}
+	return Ref1(SliceT{Arr: arr, Off: 0, Len: lenT, Cap: capv})
+}
